@@ -493,6 +493,30 @@ def _make_world(seed, kind):
                 for j in range(6):
                     w.make_read(chrom, list(eb), truth={"class": "gene-free-cluster-40bp-after-a-gene"})
                 p = eb[1][1] + 3000
+        # two isoforms with one intron chain and different ends; reads that run 100 bp past the end of one (right) and begin 200 bp before the start of
+        # the other (left): which isoform an inconsistent read is put on depends on the LENGTH of the elongation, on either side alike
+        for ci, chrom in enumerate(w.chrom_order[1:2]):
+            p = max([g.end for g in w.genes + thin if g.chrom == chrom] + [1000]) + 3000
+            for k, strand in enumerate("+-+-"):
+                if p + 4500 > w.chrom_len(chrom):
+                    break
+                if k < 2:
+                    t1 = [(p, p + 400), (p + 1000, p + 1200), (p + 2000, p + 2200)]
+                    t2 = [(p + 200, p + 400), (p + 1000, p + 1200), (p + 2000, p + 2500)]
+                    rd = [(p, p + 400), (p + 1000, p + 1200), (p + 2000, p + 2300)]
+                else:
+                    t1 = [(p + 300, p + 500), (p + 1300, p + 1500), (p + 2100, p + 2500)]
+                    t2 = [(p, p + 500), (p + 1300, p + 1500), (p + 2100, p + 2300)]
+                    rd = [(p + 200, p + 500), (p + 1300, p + 1500), (p + 2100, p + 2500)]
+                g = Gene("ELG%d_%d" % (ci + 1, k + 1), chrom, strand)
+                g.transcripts.append(Transcript(g.id + ".t1", g.id, chrom, strand, t1, True, "elongation-pair"))
+                g.transcripts.append(Transcript(g.id + ".t2", g.id, chrom, strand, t2, True, "elongation-pair"))
+                for intr in g.transcripts[0].introns:
+                    w.plant_sites(chrom, intr, strand)
+                w.genes.append(g)
+                for j in range(4):
+                    w.make_read(chrom, list(rd), truth={"class": "elongated-100-on-one-side-200-on-the-other"})
+                p += 2500 + 3000
         # the zoo loci that contain no exact positional tie (they bring their own error-free reads)
         w.genes += thin
         world2.add_zoo(w, ("ambiguous_only", "contested", "intronic", "apa", "same_coords"))
